@@ -260,7 +260,7 @@ func c02Child(r *ev.Run, batch int) {
 			}
 			wit := func(extra map[string]interface{}) map[string]interface{} {
 				w := map[string]interface{}{"schema": json.RawMessage(s.JSON()), "wire_ops": json.RawMessage(wb), "pre_state": stateJSON(pre), "cause": cause, "poison_position": pos,
-					"reply": canonReply(liveRep)}
+					"reply": canonReply(liveRep), "machine": map[string]interface{}{"schema": s, "pre": pre.T, "wire": json.RawMessage(wb)}}
 				for k, v := range extra {
 					w[k] = v
 				}
